@@ -280,7 +280,7 @@ pub fn gen_tx(r: &mut Rng, focus: Focus) -> tir::Tx {
     }
     // directives
     let mut adhoc = vec![];
-    let n_w = match focus { Focus::C08 => r.below(4), _ => if r.chance(1, 5) { 1 } else { 0 } } as usize;
+    let n_w = match focus { Focus::C08 => r.below(4), Focus::C14 => if r.chance(1, 3) { 1 + r.below(3) } else { 0 }, _ => if r.chance(1, 5) { 1 } else { 0 } } as usize;
     for i in 0..n_w {
         // C08: key and script credentials side by side (the ledger ranks script credentials first,
         // the bytes of the account rank them last)
@@ -291,7 +291,10 @@ pub fn gen_tx(r: &mut Rng, focus: Focus) -> tir::Tx {
         adhoc.push(tir::AdHocDirective {
             name: "withdrawal".into(),
             data: HashMap::from([
-                ("credential".to_string(), E::Address(account)),
+                // C14: credentials that are not stake addresses (a payment address without a delegation part
+                // gives an empty reward account, a base address a bare hash, a hash or a string go through
+                // expr_into_address)
+                ("credential".to_string(), if focus == Focus::C14 && r.chance(1, 2) { address(r, focus) } else { E::Address(account) }),
                 ("amount".to_string(), if focus == Focus::C02 { int_expr(r, focus, 1) } else { E::Number(r.below(1_000_000) as i128) }),
                 ("redeemer".to_string(), if r.chance(2, 3) { const_data(r, 1) } else { E::None }),
             ]),
